@@ -182,11 +182,15 @@ def oracle(ctx, obs, spans, windows):
                               + (" (the reference -- the optimised setup's JSI at its centre -- is exactly 0)" if cause != "other" else ""),
                               {"kind": "calls_nonfinite", "what": "jsi_normalized", "cause": cause}, dict(detail, calls=calls))
             elif calls["inside_window"] and calls["nonfinite"]:
-                # the observed cause: the coincidence rate over the grid is exactly 0 (an identically zero JSA is the extreme case)
-                cause = "zero_coincidence_counts" if f64_of_hex(calls["cc"]) == 0.0 else "other"
+                # the observed cause: the coincidence rate over the grid is exactly 0 (an identically zero JSA is the extreme case);
+                # or: the JSA itself is NaN for a counter-propagating, non-collinear setup with an explicit poling period
+                cp = o["cfg"]["crystal"]["counter"] is True and "jsa" in calls["nonfinite"] and o["cfg"]["pp"] != "off" \
+                    and o["cfg"]["pp"]["period_um"] != "auto" and f64_of_hex(r["setup"]["signal"]["theta"]) != 0.0
+                cause = "zero_coincidence_counts" if f64_of_hex(calls["cc"]) == 0.0 else ("counter_propagation_explicit_period_noncollinear" if cp else "other")
                 ctx.violation("S5", f"non-finite {calls['nonfinite']} from a successfully constructed setup on an in-window grid"
                               + (" (the coincidence JSA integrates to 0 on the grid: 0/0 in the rate normalisation)" if cause != "other" else ""),
-                              {"kind": "calls_nonfinite", "what": ",".join(calls["nonfinite"]), "cause": cause}, dict(detail, calls=calls))
+                              {"kind": "calls_nonfinite", "what": "jsa" if cause.startswith("counter_propagation") else ",".join(calls["nonfinite"]),
+                               "cause": cause}, dict(detail, calls=calls))
 
 
 def orc_of(o):
